@@ -131,6 +131,17 @@ RULE = (
     "lk.refine_tracks_centroid(bias_correction=False) and through refine_peak_based_on_moment itself; seeded random integer "
     "images (1-12 pixels x 1-10 lines, Poisson background, spots also on the first and last pixel row) with 1-3 hand-made "
     "tracks (edge and half-pixel coordinates), widths 3-9 pixels, calibrated and uncalibrated. "
+    "The same hand-made tracks once more through lk.refine_tracks_centroid(bias_correction=True) (oracle only: no exception, "
+    "as many tracks, positions inside the image, units, photon counts). Gaussian refinement (oracle only): 1-3 hand-made "
+    "tracks on images of 4-30 pixels x 1-7 lines (more pixels than lines as often as not) - tracks running parallel 1-7 "
+    "pixels apart on the same lines, tracks on the first/last pixel rows, tracks with gaps - windows 1-5, with and without "
+    "refine_missing_frames, every overlap strategy (ignore, skip, simultaneous, the deprecated multiple); and every "
+    "Gaussian refinement step of the edit streams: no exception, the scan lines of the track that went in (all lines "
+    "first..last with refine_missing_frames), none invented, none lost except by 'skip' where another refined track has a "
+    "point on the same line. Rectangle: every track_greedy case with a rectangle (a third of them one or two lines x a few "
+    "pixels) is tracked once more without it; the peaks found there that lie inside the rectangle must be points of the "
+    "tracks of the run with it. track_lines may give up with a ValueError only on an image without a bright spot or lower "
+    "than three line widths. "
     "merge_close_peaks (model op c08.mergeclose): exhaustive small scope - every ordered choice of <=3 coordinates of a "
     "4-point grid, every amplitude order and equal amplitudes, minimum distances 1-3; seeded random frames of 1-7 peaks; and "
     "the frames track_greedy itself hands to merge_close_peaks in every greedy case (before -> after). "
@@ -667,6 +678,13 @@ def run_greedy(case):
         rec = sp.rec
         with Spies():
             group2 = lk.track_greedy(kymo2, "red", **greedy_kwargs(case))
+        norect = None
+        if case.get("rect") is not None:
+            # the same image tracked without the rectangle: the peaks detected there that lie inside the rectangle are
+            # detected peaks of the run with the rectangle as well (the rectangle crops, it does not change detection)
+            with Spies():
+                group3 = lk.track_greedy(make_kymo(case), "red", **{k: v for k, v in greedy_kwargs(case).items() if k != "rect"})
+            norect = sorted([int(t), float(c)] for tr in group3 for t, c in zip(tr.time_idx, tr.coordinate_idx))
     except Unreachable:
         raise
     except Exception as e:
@@ -675,6 +693,18 @@ def run_greedy(case):
     lines, peaks_in = rec.get("lines"), rec.get("link_in")
     if "link_called" not in rec and _find("points_to_line_segments")[0] is not None:
         lines, peaks_in = [], []  # the linker was not called: no peak was detected
+    peaks_public = None
+    if peaks_in is None:
+        # the linker's peak lists cannot be seen on this code.  The detected peaks, publicly: with an empty cone
+        # (sigma_cutoff = 0) nothing can be linked, so every detected peak comes back as a one-point track
+        try:
+            with Spies():
+                g0 = lk.track_greedy(make_kymo(case), "red", **dict(greedy_kwargs(case), sigma_cutoff=0.0))
+            peaks_public = sorted([int(t), float(c)] for tr in g0 for t, c in zip(tr.time_idx, tr.coordinate_idx))
+        except Unreachable:
+            raise
+        except Exception:
+            peaks_public = None
     paired = lines is not None and len(lines) == len(group)
     dump = {
         "tracks": dump_group(group, lines if paired else None),
@@ -682,6 +712,10 @@ def run_greedy(case):
         "peaks": None if peaks_in is None else [[float(x) for x in f[0]] for f in peaks_in],
         "n_lines_raw": None if lines is None else len(lines),
     }
+    if norect is not None:
+        dump["norect"] = norect
+    if peaks_public is not None:
+        dump["peaks_public"] = peaks_public
     ans.append("ok " + json.dumps(dump))
     # half kernel size (the peak finder is not called for an image without a peak above the threshold)
     fkp = rec.get("fkp")
@@ -1094,6 +1128,7 @@ def run_edit(case):
         for st in case["program"]:
             name = st[0]
             spec = None  # the step as an op of the Lean model of the editing operations (c08.edit), when it has one
+            gauss = None  # a Gaussian refinement: which tracks of the group before the step went in, and how
             try:
                 with warnings.catch_warnings():
                     warnings.simplefilter("ignore")
@@ -1123,6 +1158,7 @@ def run_edit(case):
                         group = kt.refine_tracks_centroid(group, track_width=st[1], bias_correction=st[2])
                         stated = [[st[1]] for _ in group]
                     elif name == "refine_gaussian":
+                        gauss = {"sel": list(range(len(group))), "missing": bool(st[2]), "strategy": st[3]}
                         group = kt.refine_tracks_gaussian(group, window=st[1], refine_missing_frames=st[2], overlap_strategy=st[3])
                         stated = [None] * len(group)
                     elif name == "remove_rect":
@@ -1141,6 +1177,7 @@ def run_edit(case):
                         stated = [[st[2]] for _ in done] + [x for x, s_ in zip(stated, sel) if not s_]
                     elif name == "refine_gaussian_some" and len(group):
                         sel = _selected(st[1], len(group))
+                        gauss = {"sel": [i for i, s_ in enumerate(sel) if s_], "missing": bool(st[3]), "strategy": st[4]}
                         done = kt.refine_tracks_gaussian(group[sel], window=st[2], refine_missing_frames=st[3], overlap_strategy=st[4])
                         group = done + group[[not s_ for s_ in sel]]
                         stated = [None] * len(done) + [x for x, s_ in zip(stated, sel) if not s_]
@@ -1185,6 +1222,8 @@ def run_edit(case):
                 if len(stated) != len(group):
                     stated = [None] * len(group)
                 steps.append({"step": name, "tracks": dump_edit_group(group, kymos, shw), "stated": list(stated), "spec": spec})
+                if gauss is not None:
+                    steps[-1]["gauss"] = gauss
             except (ValueError, RuntimeError) as e:
                 steps.append({"step": name, "refused": errname(e), "spec": spec})
             except _Skip as e:
@@ -1393,6 +1432,27 @@ def run_refine(case):
             out["refused"] = a = errname(e)
         ops.append(f"c08.refine {enc_rat(EPS_MOMENT)} {h} {n} {cols} {enc_group(init)}")
         ans.append(a)
+        # the same hand-made tracks (a fresh group) with the bias correction switched on (the iteration of
+        # `unbiased_centroid` is outside the model): judged by the oracle
+        fresh = g_cls([make_track([q[0] for q in tr], [q[1] for q in tr], kymo, case["line_time"]) for tr in case["tracks"]])
+        try:
+            with warnings.catch_warnings():
+                warnings.simplefilter("ignore")
+                out["bias_corrected"] = {"tracks": dump_group(lk.refine_tracks_centroid(fresh, track_width=w * ps, bias_correction=True))}
+        except Exception as e:
+            out["bias_corrected"] = {"refused": errname(e)}
+        if case.get("gauss"):
+            # the same hand-made tracks (a fresh group) through the public Gaussian refinement: judged by the oracle
+            win, missing, strategy = case["gauss"]
+            fresh = g_cls([make_track([q[0] for q in tr], [q[1] for q in tr], kymo, case["line_time"]) for tr in case["tracks"]])
+            g = {"sel": list(range(len(fresh))), "missing": bool(missing), "strategy": strategy}
+            try:
+                with warnings.catch_warnings():
+                    warnings.simplefilter("ignore")
+                    g["tracks"] = dump_group(lk.refine_tracks_gaussian(fresh, window=win, refine_missing_frames=missing, overlap_strategy=strategy))
+            except Exception as e:
+                g["refused"] = errname(e)
+            out["gauss"] = g
         if case.get("program"):
             # a program of editing steps and refinements on the same image: each step through c08.edit / c08.refine (from the
             # group the real code had before it), the whole program through c08.steps
@@ -1549,7 +1609,8 @@ def agree(case, i, ia, ma):
             # the op is a carrier of the dump only (track_lines has no modelled parameter validation). track_lines
             # gives up with a ValueError on images without a single line-like pixel (all dark, a smooth gradient, some
             # 3-line images): no track is produced, the property says nothing about it; counted in error_kinds
-            return ma == "ok" and first == "ValueError"
+            # ... but not on an image with a bright spot that is large enough for the line width (`has_bright_feature`): the oracle says so
+            return ma == "ok" and first == "ValueError" and not has_bright_feature(case)
         if ma == "ok" and first == "RuntimeError" and case["op"] in ("greedy", "badparam", "edit"):
             # "threshold not above the lowest filtered pixel": depends on SciPy's filter, outside the model
             return _threshold_below_min(case)
@@ -1789,9 +1850,16 @@ def oracle_greedy(case, ia):
             return f"partition: track points {have[:6]}… are not exactly the detected peaks {want[:6]}… ({len(have)} vs {len(want)})"
     else:
         pts = sorted((t["t"][i], t["cidx"][i]) for t in tracks for i in range(len(t["t"])))
-        for p, q in zip(pts, pts[1:]):
-            if p == q:
-                return f"partition: the point (line {p[0]}, pixel {p[1]}) is in two tracks"
+        pub = d.get("peaks_public")
+        if pub is not None:
+            # the detected peaks as the public tracker itself reports them with an empty cone (two detections may share one
+            # coordinate: merge_close_peaks can leave the outer two of three coincident detections)
+            if [list(p) for p in pts] != [list(p) for p in pub]:
+                return f"partition: track points {pts[:6]}… are not exactly the peaks detected with an empty cone {pub[:6]}… ({len(pts)} vs {len(pub)})"
+        else:
+            for p, q in zip(pts, pts[1:]):
+                if p == q:
+                    return f"partition: the point (line {p[0]}, pixel {p[1]}) is in two tracks"
     # the pixel coordinates the tracker worked with: as the linker returned them while that can be seen (`raw`), else the
     # track's own public pixel coordinates (position / pixel size: the same numbers up to the rounding of that round trip)
     for t in tracks:
@@ -1811,6 +1879,20 @@ def oracle_greedy(case, ia):
             for tt, c in zip(t["t"], t["raw"]):
                 if not (t0 <= tt < t1 and p0 - slack <= c < p1 + slack):
                     return f"rect: track {k} has point (line {tt}, pixel {c}) outside the rectangle lines [{t0},{t1}) pixels [{p0},{p1})"
+        # ... and every detected peak inside it is a point of exactly one track: a peak that is tracked when no rectangle
+        # is asked for and lies inside the rectangle (1e-9 away from its pixel edges: the crop is decided on the
+        # tracker's doubles) is a detected peak of this run as well
+        have = {}
+        for t in tracks:
+            for tt, c in zip(t["t"], t["cidx"]):
+                have.setdefault(tt, []).append(c)
+        for tt, c in d.get("norect") or []:
+            if t0 <= tt < t1 and p0 + 1e-9 <= c < p1 - 1e-9:
+                if not any(abs(c - c2) <= 4 * abs(float(np.spacing(c))) + 1e-300 for c2 in have.get(tt, [])):
+                    return (
+                        f"partition: the peak (line {tt}, pixel {c}) is detected and tracked without the rectangle, lies inside "
+                        f"the rectangle lines [{t0},{t1}) pixels [{p0},{p1}) and is in no track of the run with the rectangle"
+                    )
     # cone, in physical units
     v = case.get("velocity") or 0.0
     D = case.get("diffusion") or 0.0
@@ -1878,18 +1960,42 @@ def oracle_link(case, ia):
     return None
 
 
+def has_bright_feature(case):
+    """every source kymograph of the case has at least four scan lines, is at least three line widths high and has a pixel
+    at least ten photons above its median: there is something line-like to track at the scale asked for (track_lines gives
+    up with a ValueError on images without anything line-like at that scale: all dark, a blob wider than the image)"""
+    for env in envs_of(case):
+        img = np.array(env["image"], dtype=float)
+        if img.shape[1] < 4 or img.max() < np.median(img) + 10 or 3 * case["line_width"] / pixel_size(env) > img.shape[0]:
+            return False
+    return True
+
+
 def oracle_edit(case, ia):
     if ia[0] == UNSEEN:
         return None
     if not ia[0].startswith("ok "):
+        if case.get("tracker") == "lines" and ia[0] == "ValueError" and has_bright_feature(case):
+            return "well-formed: track_lines produced no tracks on a kymograph with a bright spot: it raised ValueError"
         return None if ia[0] in ("ValueError", "RuntimeError") else f"editing program raised {ia[0]}"
     d = json.loads(ia[0][3:])
     envs = envs_of(case)
     shw = case.get("sample_hw", 2)
+    prev = None
     for st in d["steps"]:
         if "tracks" not in st:
+            if "refused" in st and st["step"] in MUST_NOT_RAISE:
+                return (
+                    f"well-formed: {st['step']} of a group of well-formed tracks with admissible arguments produced no tracks: "
+                    f"it raised {st['refused']}"
+                )
             continue
         where = "after " + st["step"] + ":"
+        if "gauss" in st and prev is not None:
+            r = gaussian_lines_ok(prev, st["tracks"], st["gauss"], where)
+            if r:
+                return r
+        prev = st["tracks"]
         stated = st.get("stated") or [None] * len(st["tracks"])
         for k, t in enumerate(st["tracks"]):
             # every track is judged on the kymograph it was tracked on (a list: the kymographs it may have been tracked on,
@@ -1906,6 +2012,62 @@ def oracle_edit(case, ia):
                 first = first or r
             else:
                 return first
+    return None
+
+
+# steps that take any group of well-formed tracks (of one or several kymographs) and whose arguments here are always
+# admissible (window 1..5 pixels, a documented overlap strategy; minimum length/duration; indexing): an exception means no
+# track is produced at all.  Not listed: refine_centroid (a width below three pixels of one of the kymographs is refused),
+# split/merge (refuse nodes that would give an empty track / two points on one line), remove_rect
+MUST_NOT_RAISE = ("interpolate", "interpolate_some", "filter", "refine_gaussian", "refine_gaussian_some", "regroup")
+
+
+def gaussian_lines_ok(before, after, g, where):
+    """a track produced by Gaussian refinement is the re-localisation of one track that went in: it has that track's scan
+    lines (every line from its first to its last with refine_missing_frames) — no line is invented and, unless the overlap
+    strategy is 'skip', none is lost and there are as many tracks as went in.  With 'skip' (documented: frames in which the
+    fitting windows of two tracks overlap are removed) a point may only go when another track that is refined with it, on
+    the same kymograph, has a point on the same line.  `before`/`after` are dumps; the refined tracks come first in
+    `after`, followed by the tracks that were not selected."""
+    sel = g["sel"]
+    if any(i >= len(before) for i in sel):
+        return None
+    ins = [before[i] for i in sel]
+    want = [list(range(t["t"][0], t["t"][-1] + 1)) if g["missing"] and t["t"] else list(t["t"]) for t in ins]
+    n_out = len(after) - (len(before) - len(sel))
+    if g["strategy"] != "skip":
+        if n_out != len(ins):
+            return f"well-formed: {where} {len(ins)} tracks went into the Gaussian refinement ({g['strategy']}), {n_out} came out"
+        for k, (t, w) in enumerate(zip(after[:n_out], want)):
+            if t["t"] != w:
+                return (
+                    f"well-formed: {where} refined track {k} has scan lines {t['t'][:20]}, the track that went in "
+                    f"({'every line first to last' if g['missing'] else 'as tracked'}) has {w[:20]} (overlap strategy {g['strategy']})"
+                )
+        return None
+    if not 0 <= n_out <= len(ins):
+        return f"well-formed: {where} {len(ins)} tracks went into the Gaussian refinement (skip), {n_out} came out"
+    # tracks of different kymographs never overlap; when the kymograph of a track could only be told from its public data
+    # (a list of candidates) lines are counted over all of them together: weaker, never wrong
+    certain = all(not isinstance(t.get("src", 0), list) for t in ins + after[:n_out])
+    n_in, n_after = {}, {}
+    for t, w in zip(ins, want):
+        for line in w:
+            key = (json.dumps(t.get("src", 0)) if certain else "", line)
+            n_in[key] = n_in.get(key, 0) + 1
+    for t in after[:n_out]:
+        for line in t["t"]:
+            key = (json.dumps(t.get("src", 0)) if certain else "", line)
+            n_after[key] = n_after.get(key, 0) + 1
+    for key, n in n_after.items():
+        if n > n_in.get(key, 0):
+            return f"well-formed: {where} the refined tracks have {n} points on line {key[1]}, the tracks that went in {n_in.get(key, 0)}"
+    for key, n in n_in.items():
+        if n == 1 and n_after.get(key, 0) != 1:
+            return (
+                f"well-formed: {where} the only point on line {key[1]} of the tracks that went into the Gaussian refinement "
+                f"(skip) is gone although no other track has a point on that line"
+            )
     return None
 
 
@@ -1934,6 +2096,36 @@ def oracle_refine(case, ia):
         r = counts_ok(t, k, img, [case["width_px"] * ps], d["h"], None, where)
         if r:
             return r
+    if "bias_corrected" in d:
+        b = d["bias_corrected"]
+        where = "after refine_tracks_centroid(bias_correction=True):"
+        if "tracks" not in b:
+            return f"well-formed: bias-corrected centroid refinement of tracks inside the image produced no tracks: it raised {b.get('refused')}"
+        r = well_formed(b["tracks"], len(img), len(img[0]), ps, where) or units_ok(b["tracks"], ps, case["line_time"], where)
+        if r:
+            return r
+        if len(b["tracks"]) != len(d["init"]):
+            return f"well-formed: {where} {len(d['init'])} tracks went in, {len(b['tracks'])} came out"
+        for k, t in enumerate(b["tracks"]):
+            if not t["t"]:
+                return f"well-formed: {where} track {k} is empty"
+            r = counts_ok(t, k, img, [case["width_px"] * ps], d["h"], None, where)
+            if r:
+                return r
+    if "gauss" in d:
+        g = d["gauss"]
+        where = f"after refine_tracks_gaussian({case['gauss'][0]}, {g['missing']}, {g['strategy']}):"
+        if "tracks" not in g:
+            return f"well-formed: Gaussian refinement of well-formed tracks with admissible arguments produced no tracks: it raised {g.get('refused')}"
+        r = (
+            well_formed(g["tracks"], len(img), len(img[0]), ps, where)
+            or units_ok(g["tracks"], ps, case["line_time"], where)
+            or gaussian_lines_ok(d["init"], g["tracks"], g, where)
+        )
+        if r:
+            return r
+        if any(not t["t"] for t in g["tracks"]):
+            return f"well-formed: {where} a refined track is empty"
     for rec in d.get("program", []):
         if "tracks" not in rec:
             continue
@@ -2323,6 +2515,12 @@ def gen_greedy(rng, big=False, seg=False, pixel_sizes=PIXEL_SIZES):
         dy_t, dy_p = is_dyadic(lt), is_dyadic(ps)
         a, b = sorted([rng.randint(0, n_lines), rng.randint(0, n_lines + 2)])
         c, d = sorted([rng.randint(0, n_pixels), rng.randint(0, n_pixels + 2)])
+        if rng.chance(0.35):
+            # a tight rectangle: one or two scan lines, a few pixels (often exactly one detected peak inside, or none)
+            a = min(a, n_lines - 1)
+            b = a + rng.choice([1, 1, 2])
+            if rng.chance(0.7):
+                d = c + rng.randint(1, 6)
         case["rect"] = [
             [off_grid(rng, lt, a, a, dy_t), off_grid(rng, ps, c, c, dy_p)],
             [off_grid(rng, lt, b, b, dy_t), off_grid(rng, ps, d, d, dy_p)],
@@ -2387,7 +2585,7 @@ def gen_edit(rng):
         elif m == 4:
             prog.append(["refine_centroid", rng.randint(3, 7) * ps, rng.chance(0.5)])
         elif m == 5:
-            prog.append(["refine_gaussian", rng.randint(2, 5), rng.chance(0.5), rng.choice(["ignore", "skip", "simultaneous"])])
+            prog.append(["refine_gaussian", rng.randint(2, 5), rng.chance(0.5), rng.choice(GAUSS_STRATEGIES)])
         else:
             a, b = sorted([rng.uniform(0, n_lines * lt), rng.uniform(0, n_lines * lt)])
             c, d = sorted([rng.uniform(0, n_pixels * ps), rng.uniform(0, n_pixels * ps)])
@@ -2412,7 +2610,7 @@ def gen_program(rng, case, rounds):
         elif m <= 5:
             prog.append(["refine_centroid_some", bits, rng.randint(3, 7) * ps, rng.chance(0.5)])
         else:
-            prog.append(["refine_gaussian_some", bits, rng.randint(2, 5), rng.chance(0.5), rng.choice(["ignore", "skip", "simultaneous"])])
+            prog.append(["refine_gaussian_some", bits, rng.randint(2, 5), rng.chance(0.5), rng.choice(GAUSS_STRATEGIES)])
         for _ in range(rng.randint(1, 2)):
             if rng.chance(0.5):
                 prog.append(["merge_other", rng.randint(0, 20), rng.randint(0, 20), rng.randint(0, 20), rng.randint(0, 20)])
@@ -2503,9 +2701,9 @@ def gen_multi(rng, big=False):
         elif m == 4:
             prog.append(["refine_centroid_some", bits, width(), rng.chance(0.5)])
         elif m == 5:
-            prog.append(["refine_gaussian", rng.randint(2, 5), rng.chance(0.5), rng.choice(["ignore", "skip", "simultaneous"])])
+            prog.append(["refine_gaussian", rng.randint(2, 5), rng.chance(0.5), rng.choice(GAUSS_STRATEGIES)])
         elif m == 6:
-            prog.append(["refine_gaussian_some", bits, rng.randint(2, 5), rng.chance(0.5), rng.choice(["ignore", "skip", "simultaneous"])])
+            prog.append(["refine_gaussian_some", bits, rng.randint(2, 5), rng.chance(0.5), rng.choice(GAUSS_STRATEGIES)])
         elif m == 7:
             prog.append(["interpolate"] if rng.chance(0.5) else ["interpolate_some", bits])
         elif m == 8:
@@ -2580,6 +2778,45 @@ def gen_refine(rng):
                 prog.append(f"filter:{rng.randint(1, 3)}:0/1")
         case["program"] = prog
     return case
+
+
+GAUSS_STRATEGIES = ["ignore", "skip", "simultaneous", "multiple"]  # "multiple" is deprecated, still admissible
+
+
+def gen_gauss(rng):
+    """Gaussian refinement of hand-made tracks: images with more pixels than scan lines as often as not, tracks that run
+    parallel a few pixels apart on the same lines (their fitting windows overlap on every line), tracks on the first and
+    last pixel rows (the fitting window is cut by the image edge), tracks with gaps, every overlap strategy"""
+    n_lines = rng.randint(1, 7)
+    n = rng.randint(n_lines + 1, 30) if rng.chance(0.6) else rng.randint(4, 12)
+    bg = rng.choice([0.3, 1, 3])
+    img = [[poisson(rng, bg) for _ in range(n_lines)] for _ in range(n)]
+    tracks = []
+    k = rng.randint(1, 3)
+    base = None
+    for q in range(k):
+        lines = sorted(rng.sample(range(n_lines), rng.randint(1, min(n_lines, 4))))
+        m = rng.randint(0, 3)
+        if m == 0 and base is not None:
+            # parallel to the previous track, 1..7 pixels away, on the same scan lines
+            off = rng.choice([-1, 1]) * rng.randint(1, 7)
+            tr = [[t, min(max(c + off, 0.0), n - 1.0)] for t, c in base]
+        elif m == 1:
+            c0 = rng.choice([0.0, n - 1.0, n - 1.3, 0.4, n - 2.0])
+            tr = [[t, c0] for t in lines]
+        else:
+            c0 = rng.uniform(0, n - 1)
+            tr = [[t, min(max(round(c0 + rng.uniform(-1, 1), 2), 0.0), n - 1.0)] for t in lines]
+        for t, c in tr:  # a spot where the track says there is one
+            img[int(round(c))][t] += rng.randint(5, 40)
+            if 0 < int(round(c)) < n - 1 and rng.chance(0.7):
+                img[int(round(c)) - 1][t] += rng.randint(1, 10)
+                img[int(round(c)) + 1][t] += rng.randint(1, 10)
+        tracks.append(tr)
+        base = tr
+    return {"op": "refine", "image": img, "line_time": rng.choice(LINE_TIMES), "pixel_size_um": rng.choice([None, None, 0.5, 0.25, 2.0, 0.0817]),
+            "tracks": tracks, "width_px": rng.choice([3, 5]),
+            "gauss": [rng.randint(1, 5), rng.chance(0.4), rng.choice(GAUSS_STRATEGIES)]}
 
 
 def gen_editops(rng):
@@ -2764,6 +3001,12 @@ def cases(tier, rng):
         c = gen_refine(sub)
         c.update({"stream": "random-refine", "subseed": i})
         yield c
+    r = rng.fork("c08-gauss")
+    for i in range(70 if quick else 1200):
+        sub = r.fork(i)
+        c = gen_gauss(sub)
+        c.update({"stream": "random-gaussian", "subseed": i})
+        yield c
     r = rng.fork("c08-editops")
     for i in range(400 if quick else 6000):
         sub = r.fork(i)
@@ -2919,6 +3162,52 @@ def extra_coverage(results):
                 mc["frames in which a peak was discarded"] += sum(1 for x, y in zip(before, after) if len(y) < len(x))
                 mc["ops from track_greedy runs"] += r["case"]["op"] == "greedy"
                 mc["compared leniently (a distance within 1e-12 of the minimum, not on it)"] += a != m and not r["disagree"]
+    # round H: Gaussian refinement (scan lines kept / dropped only where 'skip' may), bias-corrected refinement of
+    # hand-made tracks, the rectangle as a crop of the detections of the run without it
+    gs = {"refinements judged": 0, "on hand-made tracks": 0, "with overlap strategy skip": 0, "points dropped by skip": 0,
+          "tracks dropped by skip": 0, "with two tracks on one scan line": 0, "deprecated strategy 'multiple'": 0}
+    bias_h = {"groups refined": 0, "points": 0}
+    rect_h = {"cases": 0, "peaks of the run without the rectangle": 0, "of them inside the rectangle": 0, "rectangles holding exactly one peak": 0}
+
+    def _gauss_count(before, after, g, hand):
+        ins = [before[i] for i in g["sel"] if i < len(before)]
+        n_out = len(after) - (len(before) - len(g["sel"]))
+        gs["refinements judged"] += 1
+        gs["on hand-made tracks"] += hand
+        gs["deprecated strategy 'multiple'"] += g["strategy"] == "multiple"
+        lines_ = [ln for t in ins for ln in (range(t["t"][0], t["t"][-1] + 1) if g["missing"] and t["t"] else t["t"])]
+        gs["with two tracks on one scan line"] += len(set(lines_)) < len(lines_)
+        if g["strategy"] == "skip":
+            gs["with overlap strategy skip"] += 1
+            gs["points dropped by skip"] += max(0, len(lines_) - sum(len(t["t"]) for t in after[: max(n_out, 0)]))
+            gs["tracks dropped by skip"] += max(0, len(ins) - n_out)
+
+    for r in results:
+        c = r["case"]
+        if not r["impl"][0].startswith("ok "):
+            continue
+        if c["op"] == "refine":
+            d = json.loads(r["impl"][0][3:])
+            if "tracks" in d.get("gauss", {}):
+                _gauss_count(d["init"], d["gauss"]["tracks"], d["gauss"], 1)
+            if "tracks" in d.get("bias_corrected", {}):
+                bias_h["groups refined"] += 1
+                bias_h["points"] += sum(len(t["t"]) for t in d["bias_corrected"]["tracks"])
+        elif c["op"] == "edit":
+            prev_ = None
+            for st in json.loads(r["impl"][0][3:])["steps"]:
+                if "tracks" in st:
+                    if "gauss" in st and prev_ is not None:
+                        _gauss_count(prev_, st["tracks"], st["gauss"], 0)
+                    prev_ = st["tracks"]
+        elif c["op"] == "greedy" and c.get("rect") is not None:
+            d = json.loads(r["impl"][0][3:])
+            if d.get("norect") is not None:
+                rect_h["cases"] += 1
+                rect_h["peaks of the run without the rectangle"] += len(d["norect"])
+                inside = sum(len(t["t"]) for t in d["tracks"])
+                rect_h["of them inside the rectangle"] += inside
+                rect_h["rectangles holding exactly one peak"] += inside == 1
     model_steps, lenient_filters, progs, trackofs = {}, 0, 0, 0
     for r in results:
         for o, a, m in zip(r["ops"], r["impl"], r["model"]):
@@ -2934,6 +3223,9 @@ def extra_coverage(results):
     return {
         "refinement_without_bias_correction_compared_with_the_model": refine_pts,
         "merge_close_peaks_compared_with_the_model": mc,
+        "gaussian_refinement_scan_lines_judged": gs,
+        "bias_corrected_centroid_refinement_of_hand_made_tracks_judged": bias_h,
+        "rectangle_as_crop_of_the_detections_without_it": rect_h,
         "edit_model_steps_compared_with_the_real_code": dict(sorted(model_steps.items())),
         "edit_and_refine_model_whole_programs_compared": progs,
         "edit_model_filter_steps_that_hang_on_the_last_bits_compared_leniently": lenient_filters,
